@@ -17,6 +17,7 @@ from ..common import shard_count
 from ..ctx import LoopBoundExceeded
 
 META = {
+    'refill': True,      # cases presented in a reused buffer are followed by a refill of that buffer (runner)
     'rule': ('cases = miss-ratio-like curves (x = 1..n or cumulative integer gaps 1..19, optionally from 0; '
              'y in [0,1] from 9 classes: sorted-decreasing uniform, the same rounded to 1 decimal, non-monotone '
              'uniform, k-level staircases, noisy 1/x, cumulative-exponential MRC, constant < 1, all-ones, '
